@@ -94,3 +94,305 @@ Theorem C03_placeholders_unicode : forall s l,
   placeholders Gen.XidTable.unicode_cc s = map std_placeholder l.
 Proof. exact (C03_placeholders _ UnicodeOk.unicode_cc_ok). Qed.
 Print Assumptions C03_placeholders_unicode.
+
+(* ------------------------------------------------------------------------------------------------
+   Coverage-growth round: one full-strength statement per clause of the property.
+   New model files: Render.v (the std::fmt grammar as a generator, the closed form of the implicit counter),
+   Transparent.v (literal side of FmtAttribute::transparent_call), Utf8.v (byte-level slicing),
+   DmGeneric.v (the looping combinators in general form).
+   ------------------------------------------------------------------------------------------------ *)
+From Verif Require Import C03.Render C03.Transparent C03.Utf8 C03.DmGeneric.
+From Verif Require C03.Proofs5 C03.Proofs6 C03.Proofs7 C03.Proofs8 C03.FmtBridge.
+
+(* ---- A. sub-parser by sub-parser, for an arbitrary remaining input (not only whole literals) ---- *)
+
+(* A1. argument forms: none / index / identifier (ASCII, leading underscore, Unicode) *)
+Theorem C03_argument_forms : forall cc, CC_ok cc -> forall i oa r,
+  std_position cc i = Some (oa, r) -> optional_result (argument cc) i = (r, oa).
+Proof. exact Proofs2.position_argument. Qed.
+Print Assumptions C03_argument_forms.
+
+(* A2. identifiers are exactly rustc's words (same XID tables, same lone-underscore rule) *)
+Theorem C03_identifier_is_std_word : forall cc, CC_ok cc -> forall i,
+  identifier cc i = match std_word cc i with Some (c :: w, r) => Some (r, c :: w) | _ => None end.
+Proof. exact Proofs2.identifier_word. Qed.
+Print Assumptions C03_identifier_is_std_word.
+
+(* A3. raw identifiers are no arguments for either parser *)
+Theorem C03_raw_identifier_rejected : forall cc, CC_ok cc -> forall x r,
+  id_start cc x = true ->
+  std_position cc (c_r :: c_hash :: x :: r) = None /\
+  format_p cc (c_lbrace :: c_r :: c_hash :: x :: r) = None.
+Proof. exact Proofs8.raw_identifier_rejected. Qed.
+Print Assumptions C03_raw_identifier_rejected.
+
+(* A4. width and precision counts: literal / n$ / name$ / nothing *)
+Theorem C03_count_forms : forall cc, CC_ok cc -> forall i oc r,
+  std_count cc i = Some (oc, r) -> optional_result (count cc) i = (r, oc).
+Proof. exact Proofs2.count_agree. Qed.
+Print Assumptions C03_count_forms.
+
+(* A5. every type letter, x? and X? included; Display only in front of the closing brace *)
+Theorem C03_type_letters : forall cc, CC_ok cc -> forall i ty r,
+  std_type cc i = Some (ty, r) -> (exists r', ws cc r = c_rbrace :: r') -> type_ cc i = Some (r, ty).
+Proof. exact Proofs3.type_agree. Qed.
+Print Assumptions C03_type_letters.
+
+(* A6. the whole [':' format_spec]: any fill character, alignment, sign, #, 0 (and the 0$ look-ahead), width,
+       precision (with .* advancing the counter), type *)
+Theorem C03_spec_agree : forall cc, CC_ok cc -> forall curarg i sp curarg' r,
+  std_format cc curarg i = Some (sp, false, curarg', r) -> (exists r', ws cc r = c_rbrace :: r') ->
+  exists osp,
+    map_or_else (p_char c_colon) (fun i => Some (i, None))
+                (map_p (format_spec cc) (fun '(i, s) => (i, Some s))) i = Some (r, osp) /\
+    sp = match osp with Some s => s | None => default_spec end /\
+    curarg' = match sp_prec sp with Some PStar => curarg + 1 | _ => curarg end.
+Proof. exact Proofs3.format_agree. Qed.
+Print Assumptions C03_spec_agree.
+
+(* A7. one placeholder at any place of a literal, whatever follows it: std's resolved argument is the closed form
+       computed from derive_more's [format] (position, spec, the argument a .* reads, the counter afterwards) *)
+Theorem C03_placeholder_agree : forall cc, CC_ok cc -> forall curarg i a curarg' r,
+  std_argument cc curarg i = Some (a, curarg', r) -> sa_empty_dot a = false ->
+  exists f, format_p cc (c_lbrace :: i) = Some (r, f) /\
+            a = {| sa_pos := position_at curarg [] f; sa_spec := spec_of f; sa_star := star_at curarg [] f;
+                   sa_empty_dot := false |} /\
+            curarg' = curarg + advance f.
+Proof. exact Proofs8.placeholder_agree. Qed.
+Print Assumptions C03_placeholder_agree.
+
+(* ---- B. the implicit positional counter ---- *)
+
+(* B1. closed form of Placeholder::parse_fmt_string: the k-th placeholder depends on the ones before it only through
+       their number of implicit arguments and of .* precisions *)
+Theorem C03_counter_closed_form : forall fs n k f,
+  nth_error fs k = Some f ->
+  nth_error (placeholders_from n fs) k =
+  Some {| ph_arg := position_at n (firstn k fs) f; ph_mods := has_modifiers f;
+          ph_trait := trait_name (sp_ty (spec_of f)) |}.
+Proof. exact Proofs6.placeholders_from_nth. Qed.
+Print Assumptions C03_counter_closed_form.
+
+(* B2. the rules of the statement: explicit arguments do not advance the counter, an implicit one advances it once,
+       .* advances it once more (and comes first) *)
+Theorem C03_counter_rules : forall n pre f,
+  (forall a, f_arg f = Some a -> position_at n pre f = param_of_arg a) /\
+  (f_arg f = None -> is_star f = false -> position_at n pre f = Positional (counter_after n pre)) /\
+  (f_arg f = None -> is_star f = true -> position_at n pre f = Positional (counter_after n pre + 1)) /\
+  (forall a, f_arg f = Some a -> is_star f = false -> counter_after n (pre ++ [f]) = counter_after n pre) /\
+  (forall a, f_arg f = Some a -> is_star f = true -> counter_after n (pre ++ [f]) = counter_after n pre + 1) /\
+  (f_arg f = None -> is_star f = false -> counter_after n (pre ++ [f]) = counter_after n pre + 1) /\
+  (f_arg f = None -> is_star f = true -> counter_after n (pre ++ [f]) = counter_after n pre + 2).
+Proof. exact Proofs6.counter_rules. Qed.
+Print Assumptions C03_counter_rules.
+
+(* B3. std's complete output is a function of derive_more's format list (subsumes 1 and 2, adds what .* reads) *)
+Theorem C03_std_is_expected : forall cc, CC_ok cc -> forall s l,
+  std_parse cc s = Some l -> no_empty_dot l ->
+  exists fs, format_string cc s = Some fs /\ l = expected_args 0 [] fs.
+Proof. exact Proofs6.std_is_expected. Qed.
+Print Assumptions C03_std_is_expected.
+
+(* B4. the two numberings agree placeholder by placeholder, for arbitrary sequences with .* and explicit indices/names *)
+Theorem C03_numbering_agrees : forall cc, CC_ok cc -> forall s l,
+  std_parse cc s = Some l -> no_empty_dot l ->
+  exists fs, format_string cc s = Some fs /\ length fs = length l /\
+    forall k f a, nth_error fs k = Some f -> nth_error l k = Some a ->
+      sa_pos a = position_at 0 (firstn k fs) f /\
+      nth_error (placeholders cc s) k =
+        Some {| ph_arg := position_at 0 (firstn k fs) f; ph_mods := has_modifiers f;
+                ph_trait := trait_name (sp_ty (spec_of f)) |} /\
+      sa_star a = star_at 0 (firstn k fs) f.
+Proof. exact Proofs6.numbering_agrees. Qed.
+Print Assumptions C03_numbering_agrees.
+
+(* ---- C. every derivation of the std::fmt grammar (unbounded) ---- *)
+
+(* C1. std reads every well-formed abstract format string back as intended: any argument form, ANY fill character
+       (braces included), sign, #, 0, every width / precision form (numerals with leading zeros, n$, name$, star), every
+       type, white space in both places, escapes, any sequence *)
+Theorem C03_grammar_std : forall cc, CC_ok cc -> forall its,
+  wf_items cc its = true ->
+  std_parse cc (render_items its) = Some (expected_args 0 [] (formats_of its)).
+Proof. exact Proofs7.grammar_std. Qed.
+Print Assumptions C03_grammar_std.
+
+(* C2. ... and so does derive_more: the placeholders *)
+Theorem C03_grammar_placeholders : forall cc, CC_ok cc -> forall its,
+  wf_items cc its = true ->
+  placeholders cc (render_items its) = placeholders_from 0 (formats_of its).
+Proof. exact Proofs7.grammar_dm_placeholders. Qed.
+Print Assumptions C03_grammar_placeholders.
+
+(* C3. ... and their fill/align/sign/#/0/width/precision/type *)
+Theorem C03_grammar_formats : forall cc, CC_ok cc -> forall its,
+  wf_items cc its = true ->
+  exists fs, format_string cc (render_items its) = Some fs /\
+             map spec_or_default fs = map spec_or_default (formats_of its) /\
+             placeholders_from 0 fs = placeholders_from 0 (formats_of its).
+Proof. exact Proofs7.grammar_dm_formats. Qed.
+Print Assumptions C03_grammar_formats.
+
+(* C3'. exactly: derive_more's parser inverts the renderer (explicit versus implicit argument, presence of the colon,
+        every field of the spec) - for one placeholder followed by anything, and for whole literals *)
+From Verif Require C03.Proofs10.
+Theorem C03_grammar_one_placeholder : forall cc, CC_ok cc -> forall p rest,
+  wf_sformat cc p = true -> (blank_colon p = true -> head_not_align rest = true) ->
+  format_p cc (render_format p ++ rest) = Some (rest, sem_format p).
+Proof. exact Proofs10.format_p_render. Qed.
+Print Assumptions C03_grammar_one_placeholder.
+
+Theorem C03_grammar_exact : forall cc, CC_ok cc -> forall its,
+  wf_items cc its = true -> format_string cc (render_items its) = Some (formats_of its).
+Proof. exact Proofs10.grammar_dm_exact. Qed.
+Print Assumptions C03_grammar_exact.
+
+(* C3''. conversely, every literal the std model accepts without an empty precision dot IS a derivation of the grammar,
+         so the grammar theorems and the agreement theorems 1-2 quantify over the same literals ... *)
+From Verif Require C03.Proofs11.
+Theorem C03_grammar_complete : forall cc, CC_ok cc -> forall s,
+  (exists l, std_parse cc s = Some l /\ no_empty_dot l) <->
+  (exists its, wf_items cc its = true /\ render_items its = s).
+Proof. exact Proofs11.std_language. Qed.
+Print Assumptions C03_grammar_complete.
+
+(* ... and the known finding is exactly the gap between what rustc's parser accepts and the documented grammar
+   (`'.' precision` in the documentation, an optional precision after the dot in the parser) *)
+Theorem C03_empty_dot_is_the_gap : forall cc, CC_ok cc -> forall s l,
+  std_parse cc s = Some l ->
+  (no_empty_dot l <-> exists its, wf_items cc its = true /\ render_items its = s).
+Proof. exact Proofs11.empty_dot_is_the_gap. Qed.
+Print Assumptions C03_empty_dot_is_the_gap.
+
+(* C4. with the real Unicode tables of this run *)
+Theorem C03_grammar_placeholders_unicode : forall its,
+  wf_items Gen.XidTable.unicode_cc its = true ->
+  placeholders Gen.XidTable.unicode_cc (render_items its) = placeholders_from 0 (formats_of its).
+Proof. exact (C03_grammar_placeholders _ UnicodeOk.unicode_cc_ok). Qed.
+Print Assumptions C03_grammar_placeholders_unicode.
+
+(* ---- D. never silently accepted: the literal side of FmtAttribute::transparent_call ---- *)
+
+(* D1. whenever the literal is NOT handed to format_args! (a delegation), std accepts it as exactly that one placeholder:
+       no modifiers, that trait, and an argument that resolves to what is delegated to.  (Full strength: no restriction on the index.) *)
+Theorem C03_transparent_sound : forall cc, CC_ok cc -> forall lit aliases sel tr,
+  transparent_lit cc lit aliases = Some (sel, tr) ->
+  exists a, std_parse cc lit = Some [a] /\
+            spec_has_modifiers (sa_spec a) = false /\
+            tr = trait_name (sp_ty (sa_spec a)) /\
+            transparent_decision (sa_pos a) aliases = Some sel.
+Proof. exact Proofs6.transparent_sound. Qed.
+Print Assumptions C03_transparent_sound.
+
+(* D2. and conversely the decision is exactly the one std's reading dictates *)
+Theorem C03_transparent_characterised : forall cc, CC_ok cc -> forall body a n' aliases,
+  std_argument cc 0 body = Some (a, n', []) -> sa_empty_dot a = false ->
+  transparent_lit cc (c_lbrace :: body) aliases =
+    if spec_has_modifiers (sa_spec a) then None
+    else match transparent_decision (sa_pos a) aliases with
+         | Some sel => Some (sel, trait_name (sp_ty (sa_spec a)))
+         | None => None
+         end.
+Proof. exact Proofs6.transparent_characterised. Qed.
+Print Assumptions C03_transparent_characterised.
+
+(* D3. the transparent_call of Fmt/Model.v (used by C02/C04/C05/C07) is this function *)
+Theorem C03_transparent_call_bridge : forall cc a,
+  Fmt.Model.transparent_call cc a =
+  match transparent_lit cc (Fmt.Model.lit a) (map Fmt.Model.alias (Fmt.Model.args a)) with
+  | Some (sel, tr) => Some (FmtBridge.sel_expr a sel, tr)
+  | None => None
+  end.
+Proof. exact FmtBridge.transparent_call_bridge. Qed.
+Print Assumptions C03_transparent_call_bridge.
+
+(* ---- E. parser robustness (ingredients of C18) ---- *)
+
+(* E1. every sub-parser returns a suffix of its input *)
+Theorem C18_subparsers_suffix : forall cc i r,
+  (forall a, align_p i = Some (r, a) -> is_suffix r i) /\
+  (forall s, sign_p i = Some (r, s) -> is_suffix r i) /\
+  (forall x, identifier cc i = Some (r, x) -> is_suffix r i) /\
+  (forall n, integer i = Some (r, n) -> is_suffix r i) /\
+  (forall a, argument cc i = Some (r, a) -> is_suffix r i) /\
+  (forall a, parameter cc i = Some (r, a) -> is_suffix r i) /\
+  (forall c, count cc i = Some (r, c) -> is_suffix r i) /\
+  (forall p, precision cc i = Some (r, p) -> is_suffix r i) /\
+  (forall t, type_ cc i = Some (r, t) -> is_suffix r i) /\
+  (forall s, format_spec cc i = Some (r, s) -> is_suffix r i) /\
+  (forall f, format_p cc i = Some (r, f) -> is_suffix r i) /\
+  (forall o, maybe_format cc i = Some (r, o) -> is_suffix r i) /\
+  (forall x, text i = Some (r, x) -> is_suffix r i) /\
+  (forall o, alt [ maybe_format cc; map_p text (fun '(i, _) => (i, None)) ] i = Some (r, o) -> is_suffix r i).
+Proof. exact Proofs8.subparsers_suffix. Qed.
+Print Assumptions C18_subparsers_suffix.
+
+(* E2. for a suffix, the byte arithmetic [&input[..input.len() - rest.len()]] does not underflow, lands on a char boundary
+       (non-ASCII included) and cuts exactly what the list model cuts *)
+Theorem C18_slice_never_panics : forall i r, is_suffix r i ->
+  consumed_bytes i r = Some (consumed i r) /\ (blen r <= blen i)%nat /\
+  is_char_boundary i (blen i - blen r) = true.
+Proof. exact Proofs5.consumed_bytes_suf. Qed.
+Print Assumptions C18_slice_never_panics.
+
+(* E3. the other two slicing idioms: [&input[c.len_utf8()..]] after the first char, [&input[s.len()..]] after a prefix *)
+Theorem C18_char_slices : (forall c r, slice_from (c :: r) (len_utf8 c) = Some r) /\
+                          (forall s r, slice_from (s ++ r) (blen s) = Some r).
+Proof. exact (conj Proofs5.slice_after_char Proofs5.slice_after_str). Qed.
+Print Assumptions C18_char_slices.
+
+(* E4. the top-level loop stops because a step fails or the input is used up, never because the fuel ran out *)
+Theorem C18_scan_terminates : forall cc n i acc, (length i < n)%nat ->
+  let rest := fst (scan cc n i acc) in
+  is_suffix rest i /\
+  (rest = [] \/ alt [ maybe_format cc; map_p text (fun '(i, _) => (i, None)) ] rest = None).
+Proof. exact Proofs5.scan_stops. Qed.
+Print Assumptions C18_scan_terminates.
+
+(* E5. the looping combinators in their general form (fuelled) coincide with the spans of DmParse.v *)
+Theorem C18_generic_combinators : forall cc fuel i, (length i <= fuel)%nat ->
+  identifier_g cc fuel i = identifier cc i /\ integer_g fuel i = integer i /\ text_g fuel i = text i /\
+  (forall f, take_while0_g (check_char f) fuel i = take_while0 f i) /\
+  (forall f, take_while1_g (check_char f) fuel i = take_while1 f i).
+Proof.
+  exact (fun cc fuel i H =>
+    conj (Proofs5.identifier_g_eq cc fuel i H) (conj (Proofs5.integer_g_eq fuel i H) (conj (Proofs5.text_g_eq fuel i H)
+    (conj (fun f => Proofs5.take_while0_g_eq f fuel i H) (fun f => Proofs5.take_while1_g_eq f fuel i H))))).
+Qed.
+Print Assumptions C18_generic_combinators.
+
+(* E6. numerals: read as their value whatever their length, rejected (not wrapped) beyond usize *)
+Theorem C18_integer_range : forall ds r,
+  ds <> [] -> forallb is_digit ds = true ->
+  match r with c :: _ => is_digit c = false | [] => True end ->
+  (digits_value ds <= usize_max -> integer (ds ++ r) = Some (r, digits_value ds)) /\
+  (usize_max < digits_value ds -> integer (ds ++ r) = None).
+Proof.
+  exact (fun ds r H1 H2 H3 => conj (Proofs5.integer_value ds r H1 H2 H3) (Proofs5.integer_overflow ds r H1 H2 H3)).
+Qed.
+Print Assumptions C18_integer_range.
+
+(* E7. the std model is fuel-independent as well: the fuel S (length s) of std_parse never causes a rejection *)
+From Verif Require C03.Proofs9.
+Theorem C03_std_fuel : forall cc s n, (length s < n)%nat -> std_pieces cc n 0 s = std_parse cc s.
+Proof. exact Proofs9.std_parse_fuel. Qed.
+Print Assumptions C03_std_fuel.
+
+(* ---- F. the second known finding (`unused-enum-level-literal`): outside transparent_call there is one more way for a
+        literal never to reach format_args!.  SharedLit.v mirrors Expansion::shared_attr_info and the literal flow of
+        Expansion::generate_body (fmt/display.rs): an enum-level format without `_variant` is dropped next to a variant that
+        has a format of its own - in particular every literal derive_more's own parser cannot read. ---- *)
+From Verif Require Import C03.SharedLit.
+From Verif Require C03.Proofs12.
+Theorem C03_unparsable_enum_level_literal_dropped : forall cc a tr,
+  format_string cc (sl_lit a) = None -> shared_literal_reaches cc (Some a) tr true = false.
+Proof. exact Proofs12.unparsable_shared_dropped. Qed.
+Print Assumptions C03_unparsable_enum_level_literal_dropped.
+
+(* witness `#[display("{")] enum E { #[display("a")] A }` (the real macro compiles it; replayed by the check on every run):
+   std rejects the literal, the arm of a variant with its own format does not contain it, the arm of one without does *)
+Theorem C03_unused_enum_level_literal_refuted :
+  exists a tr, std_parse ascii_cc (sl_lit a) = None /\ shared_literal_reaches ascii_cc (Some a) tr true = false
+               /\ shared_literal_reaches ascii_cc (Some a) tr false = true.
+Proof. exact Proofs12.unused_shared_literal_refuted. Qed.
+Print Assumptions C03_unused_enum_level_literal_refuted.
